@@ -240,7 +240,10 @@ def rand_bars(rng, length, lo=1, hi=9, vmax=3):
     out = []
     while len(out) < length:
         r = rng.random()
-        if r < 0.12:
+        if r < 0.04:
+            b = rand_bar(rng, lo, hi, vmax)
+            out += [dict(b) for _ in range(rng.randint(5, 40))]                               # a flat stretch: the very same bar again and again
+        elif r < 0.12:
             b = rand_bar(rng, lo, hi, vmax)
             out += [dict(b, v=rng.randint(0, vmax)) for _ in range(rng.randint(2, 4))]     # same prices, other volume
         elif r < 0.2:
@@ -869,7 +872,8 @@ def plan_C12(tier, seed):
             sa = set() if kind in BAR_ONLY else {2}
             ba = BAD_BARS[:2] + [bar(3, 1, 2)] if kind in BAR_ONLY or kind in HLC_KINDS else []
             # (kinds with both a scalar and a bar path have 19 ops per step: one step less for them in the thorough tier)
-            jobs.append(Job("%s_f_n%d" % (kind, n), {1: a}, salpha=sa, balpha=ba, toks=FAULT_TOKS, resets={1}, maxdepth=(5 if q or (sa and ba) else 6),
+            toks = {"NaN", "PInf", "NFMax", "NZero"} if (sa and ba and q) else FAULT_TOKS
+            jobs.append(Job("%s_f_n%d" % (kind, n), {1: a}, salpha=sa, balpha=(ba[:2] if (sa and ba and q) else ba), toks=toks, resets={1}, maxdepth=(5 if q or (sa and ba) else 6),
                             noovf=False, invariants=inv, view=False, emit="EmitLeaf"))
         # every period 1..64 for 3*period+3 calls with a fault injected at a different cursor position each time
         ids = {}
@@ -895,6 +899,7 @@ def plan_C12(tier, seed):
             ops += to_ops(kind, i, xs[:3])
             ops.append({"op": "drop", "i": i})
         jobs.append(scripted("%s_periods" % kind, ids, ops, noovf=False, invariants=inv))
+        jobs[-1].replay_args = ["--max-units", "3" if q else "8"]      # totality does not hinge on the price unit: (1,0), (0.1,0), (2^-20,0)
     return {
         "min_by_kind": {"kinds": ALL22, "relational": 1000}, "jobs": jobs, "parallel": 12,
         "rule": "(a) per kind and period 1..2 (1..3): EVERY sequence up to depth 4 (5) over {ordinary value, NaN, +inf, -inf, +-f64::MAX, subnormal, -0.0, reset, "
@@ -1209,6 +1214,8 @@ def plan_C14(tier, seed):
                 continue
             a = kcfg(kind, n, alt=n + 1)
             sa, ba = free_alpha(kind)
+            if kind in ("MIN", "MAX", "SMA", "EMA"):
+                sa = {-3, -1, 2}            # any sign (Maximum(x) = -Minimum(-x) is checked on the Minimum runs)
             unb = kind in UNBOUNDED
             depth = (n + 3) if unb or kind in BAR_ONLY else 10**6
             if kind in BAR_ONLY and n >= 3:
